@@ -12,13 +12,11 @@ C01 capstones, second part (same namespace `TLX.Props.C01Capstone`; nothing of `
 2. `tls12_connection_exact_displaced`, `tls13_connection_exact_displaced`: `DeliveredDisplaced` = per direction
    `Delivers k isn` (segments displaced by up to k positions) ∧ `Props.C05.NoEarlyDelivery`.
 3. TLS 1.3 handshake messages fragmented across records (`Spec/TlsFragmented13`: `FEv.frag bytes fins`, `FragConform`).
-   `tls13_connection_exact_statement` (def, full RFC 8446 §5.1 strength), `Ex2.tls13_fragmented_counterexample : ¬ …`,
-   `tls13_fragmented_partial`: holds when every protected handshake record is in LOCKSTEP (`Lemmas/Capstone2.Lock`):
-   `seenFins bytes = fins`, where `walk` / `seenFins` say exactly what the loop of
-   `handle_decrypted_tls_13_handshake_record` looks at (`hs13Loop_walk`): it restarts at offset 0 of every record's
-   plaintext and hops (type, uint24 length) pairs, so it counts a Finished iff the Finished's first byte is reached by
-   hopping from THIS record's first byte — whole-message records are in lockstep (`seenFins_whole`); a record that
-   starts inside a message is walked from garbage.
+   `tls13_connection_exact_statement` (def, full RFC 8446 §5.1 strength) is TRUE for the model as repaired (per-direction
+   `handshake_13_buffer`): `tls13_connection_exact_fragmented`. `Lemmas/Capstone2.plan_of_conform` turns RFC
+   conformance (Finished ends counted per record) into the per-record facts the loop needs; `hsBuf_invariant`: the
+   buffer is exactly the unfinished tail of the direction's handshake stream. Before the repair
+   (`Session.Legacy.hs13Loop`, characterised by `walk` / `legacy_hs13Loop_walk`): `Ex2.legacy_tls13_fragmented_counterexample`.
 4. `tls12_connection_meta_exact`, `tls13_connection_meta_exact`: the export with `-a` (`metaStream12`, `metaStream13`).
 Non-vacuity: `Ex2.*_instance` discharge every hypothesis for concrete connections.
 -/
@@ -106,7 +104,8 @@ theorem tls12_connection_exact_of_release (H : Crypto.Prims) (P : Prims) (L : Se
   have hready : Ready cls (KeySchedule.macSuite H a.ks.mac).outLen (legacySnd k)
       (Session.handleRecord (Pipeline.ops H P kl) false (Session.handleRecord (Pipeline.ops H P kl) false Session.St.init ⟨t.chRecord, c0⟩ false)
         ⟨t.shRecord, c1⟩ true) :=
-    ⟨g3.1, ⟨v, g1, ⟨fun h => absurd h hvne, fun h => by rw [h13] at h; cases h⟩⟩, dd, g3.2, hR⟩
+    ⟨⟨g3.1, ⟨v, g1, ⟨fun h => absurd h hvne, fun h => by rw [h13] at h; cases h⟩⟩, dd, g3.2, hR⟩,
+      hello_pair_bufs _ false Session.St.init h0 t.rvC t.rvS hrc hrs t.ch hch t.sh c0 c1⟩
   -- everything after the ServerHello: any interleaving
   have hrun : Session.run (Pipeline.ops H P kl) false Session.St.init
       ((⟨t.chRecord, c0⟩, false) :: (noise ++ (⟨t.shRecord, c1⟩, true) :: M'))
@@ -226,7 +225,8 @@ theorem tls13_connection_exact_of_release (H : Crypto.Prims) (P : Prims) (L : Se
       (Session.handleRecord (Pipeline.ops H P kl) false
         (Session.handleRecord (Pipeline.ops H P kl) false Session.St.init ⟨t.chRecord, r0.carriers⟩ false)
         ⟨t.shRecord, r1.carriers⟩ true) :=
-    ⟨g3.1, ⟨.tls13, g1, ⟨fun _ => h13, fun _ => rfl⟩⟩, dd, g3.2, hR⟩
+    ⟨⟨g3.1, ⟨.tls13, g1, ⟨fun _ => h13, fun _ => rfl⟩⟩, dd, g3.2, hR⟩,
+      hello_pair_bufs _ false Session.St.init h0 t.rvC t.rvS hrc hrs t.ch hch t.sh r0.carriers r1.carriers⟩
   rw [hr0, hr1]
   have hmerge := run_merge13 H P L kl cls h13 _ t.ver hv M'
     ⟨SDir.init chk chiv cak caiv, SDir.init shk shiv sak saiv⟩ _
@@ -430,11 +430,10 @@ def tls13_connection_exact_statement : Prop := ∀ (H : Crypto.Prims) (P : Prims
       Spec.reassemble frames = some (plainOfF t.cF, plainOfF t.sF) ∧
       TimesFromCarriers info c frames 
 set_option linter.unusedVariables false in
-/-- The positive part: the full statement holds for every connection in which each protected handshake record is in
-    LOCKSTEP (`Lock`): the loop of `handle_decrypted_tls_13_handshake_record`, which restarts at offset 0 of every record's
-    plaintext and hops (type, uint24 length) pairs (`walk`), sees exactly as many type-20 bytes as Finished messages END
-    in the record. `seenFins_whole`: records of whole messages are in lockstep (then this is `tls13_connection_exact`). -/
-theorem tls13_fragmented_partial (H : Crypto.Prims) (P : Prims) (L : SealLaws P) (kl : List Keylog.Key)
+/-- 3. THE POINT OF THE REPAIR: with the per-direction handshake buffer the full-strength statement holds — handshake
+    messages may be fragmented ANYWHERE across protected records (RFC 8446 §5.1), coalesced, interleaved with the other
+    direction; no lockstep hypothesis. (Before the repair: `Ex2.legacy_tls13_fragmented_counterexample`.) -/
+theorem tls13_connection_exact_fragmented_aux (H : Crypto.Prims) (P : Prims) (L : SealLaws P) (kl : List Keylog.Key)
     (info : Nat → Pipeline.Info) (c : Pipeline.Conn) (hmeta : c.opts.metadata = false)
     -- the connection as sent
     (t : TranscriptF) (hch : t.ch.WellFormed) (hsh : t.sh.WellFormed) (hrc : t.rvC.length = 2) (hrs : t.rvS.length = 2)
@@ -456,7 +455,6 @@ theorem tls13_fragmented_partial (H : Crypto.Prims) (P : Prims) (L : SealLaws P)
     (h1 : KeyMatOk cls chk chiv) (h2 : KeyMatOk cls cak caiv) (h3 : KeyMatOk cls shk shiv) (h4 : KeyMatOk cls sak saiv)
     -- what follows the hellos
     (hfc : FragConform t.cF) (hfs : FragConform t.sF)
-    (hlc : ∀ e ∈ t.cF, Lock e) (hls : ∀ e ∈ t.sF, Lock e)
     (hwr : ∀ d, ∀ r ∈ t.records P L cls ⟨SDir.init chk chiv cak caiv, SDir.init shk shiv sak saiv⟩ d, WholeRecord r)
     (hlen : costF t.cF + costF t.sF ≤ seqLimit)
     -- the capture
@@ -507,18 +505,33 @@ theorem tls13_fragmented_partial (H : Crypto.Prims) (P : Prims) (L : SealLaws P)
       (Session.handleRecord (Pipeline.ops H P kl) false
         (Session.handleRecord (Pipeline.ops H P kl) false Session.St.init ⟨t.chRecord, r0.carriers⟩ false)
         ⟨t.shRecord, r1.carriers⟩ true) :=
-    ⟨g3.1, ⟨.tls13, g1, ⟨fun _ => h13, fun _ => rfl⟩⟩, dd, g3.2, hR⟩
+    ⟨⟨g3.1, ⟨.tls13, g1, ⟨fun _ => h13, fun _ => rfl⟩⟩, dd, g3.2, hR⟩,
+      hello_pair_bufs _ false Session.St.init h0 t.rvC t.rvS hrc hrs t.ch hch t.sh r0.carriers r1.carriers⟩
   rw [hr0, hr1]
   have hmerge := run_mergeF H P L kl cls h13 _ t.ver hv M'
     ⟨SDir.init chk chiv cak caiv, SDir.init shk shiv sak saiv⟩ _
-    (fun d => if d then t.sF else t.cF) hready
-    (by intro d e he; cases d; exact hlc e he; exact hls e he)
+    (fun d => if d then t.sF else t.cF) (fun _ => []) hready
+    (by intro d; cases d; exact plan_of_conform _ hfc; exact plan_of_conform _ hfs)
     (by intro d; cases d; exact hC'; exact hS')
     (by simp only [SDir.init] at hlen ⊢; simpa using hlen)
   intro d
   simp only [Session.run, List.foldl_cons] at hmerge ⊢
   rw [hmerge d, htr2, htr1]
   cases d <;> rfl
+
+theorem tls13_connection_exact_fragmented : tls13_connection_exact_statement := by
+  unfold tls13_connection_exact_statement
+  exact tls13_connection_exact_fragmented_aux
+
+/-- `hsBuf_invariant` (pure form, `Lemmas/Pipeline.consume` is the loop without the decryptor, `hs13Loop_consume`): whatever
+    pieces `frs` the first `n` bytes of a stream of whole messages `msgs` are cut into, feeding them one by one through
+    the repaired loop leaves in the buffer exactly the unfinished tail — the first `n` stream bytes minus the messages
+    that fit entirely into them (`Lemmas/Capstone2.completed`) -/
+theorem hsBuf_invariant (msgs : List HsMsg) (hok : ∀ m ∈ msgs, MsgOk m) (frs : List Bytes) (n : Nat)
+    (hcut : frs.flatten = (encMsgs msgs).take n) (hn : n ≤ (encMsgs msgs).length) :
+    frs.foldl (fun buf f => (consume (buf ++ f).length (buf ++ f)).2) []
+      = ((encMsgs msgs).take n).drop (encMsgs (completed msgs n).1).length :=
+  bufAfter_eq msgs hok frs n hcut hn
 
 -- ====================================================================== 4. with `-a`
 theorem rl_ne13 (v : Session.Ver) (h : v ≠ .tls13) : Pipeline.rlVersion v ≠ .tls13 := by
@@ -635,7 +648,8 @@ theorem tls12_connection_meta_exact (H : Crypto.Prims) (P : Prims) (L : SealLaws
       (Session.handleRecord (Pipeline.ops H P kl) true
         (Session.handleRecord (Pipeline.ops H P kl) true Session.St.init ⟨t.chRecord, r0.carriers⟩ false)
         ⟨t.shRecord, r1.carriers⟩ true) :=
-    ⟨g3.1, ⟨v, g1, ⟨fun h => absurd h hvne, fun h => by rw [h13] at h; cases h⟩⟩, dd, g3.2, hR⟩
+    ⟨⟨g3.1, ⟨v, g1, ⟨fun h => absurd h hvne, fun h => by rw [h13] at h; cases h⟩⟩, dd, g3.2, hR⟩,
+      hello_pair_bufs _ true Session.St.init h0 t.rvC t.rvS hrc hrs t.ch hch t.sh r0.carriers r1.carriers⟩
   rw [hr0, hr1]
   have hmerge := run_merge12m H P L kl cls h13 _ t.ver hv M' (legacySnd k) _
     (fun d => if d then t.sEvs else t.cEvs) hready
@@ -751,7 +765,8 @@ theorem tls13_connection_meta_exact (H : Crypto.Prims) (P : Prims) (L : SealLaws
       (Session.handleRecord (Pipeline.ops H P kl) true
         (Session.handleRecord (Pipeline.ops H P kl) true Session.St.init ⟨t.chRecord, r0.carriers⟩ false)
         ⟨t.shRecord, r1.carriers⟩ true) :=
-    ⟨g3.1, ⟨.tls13, g1, ⟨fun _ => h13, fun _ => rfl⟩⟩, dd, g3.2, hR⟩
+    ⟨⟨g3.1, ⟨.tls13, g1, ⟨fun _ => h13, fun _ => rfl⟩⟩, dd, g3.2, hR⟩,
+      hello_pair_bufs _ true Session.St.init h0 t.rvC t.rvS hrc hrs t.ch hch t.sh r0.carriers r1.carriers⟩
   rw [hr0, hr1]
   have hmerge := run_merge13m H P L kl cls h13 _ t.ver hv M'
     ⟨SDir.init chk chiv cak caiv, SDir.init shk shiv sak saiv⟩ _
@@ -1046,9 +1061,8 @@ theorem conformFG : FragConform tFG.cF ∧ FragConform tFG.sF := by
     · simp only [tFG, FinsRight]; decide +kernel
     · simp only [tFG, FragsNonEmpty]; decide +kernel
 
-/-- every hypothesis of `tls13_fragmented_partial` holds for this connection, in which the Certificate message spans
-    two records: the records are in lockstep because the Finished starts its own record and the walk over the
-    continuation record (00 ff ff ff 07 07) hops past its end at once -/
+/-- every hypothesis of `tls13_connection_exact_fragmented` holds for this connection, in which the Certificate message
+    spans two records and the Finished starts its own record -/
 theorem tls13_fragmented_instance :
     ∃ frames, Pipeline.connOut hashes Cipher.Toy.prims infoFG connFG kl13
         = some (frames.map (Pipeline.addressed connFG.opts connFG)) ∧
@@ -1067,13 +1081,13 @@ theorem tls13_fragmented_instance :
   have hwr : ∀ d, ∀ r ∈ tFG.records Cipher.Toy.prims Cipher.Toy.laws cls13 x13 d, WholeRecord r := by
     intro d; cases d <;> decide +kernel
   have hlen : costF tFG.cF + costF tFG.sF ≤ seqLimit := by decide +kernel
-  have h := tls13_fragmented_partial hashes Cipher.Toy.prims Cipher.Toy.laws kl13 infoFG connFG rfl tFG
+  have h := tls13_connection_exact_fragmented_aux hashes Cipher.Toy.prims Cipher.Toy.laws kl13 infoFG connFG rfl tFG
     (by decide) (by decide) rfl rfl rfl rfl (by unfold Negotiated; decide)
     ps13 hres a13 hargs _ _ hfound secrets13 hsec k13 hgen
     (k13.clientHsKey.getD []) (k13.clientHsIv.getD []) (k13.clientAppKey.getD []) (k13.clientAppIv.getD [])
     (k13.serverHsKey.getD []) (k13.serverHsIv.getD []) (k13.serverAppKey.getD []) (k13.serverAppIv.getD [])
     (by decide +kernel) cls13 hcls (by decide +kernel) (by decide +kernel) (by decide +kernel) (by decide +kernel)
-    conformFG.1 conformFG.2 (by decide +kernel) (by decide +kernel) hwr hlen deliveredFG causalFG
+    conformFG.1 conformFG.2 hwr hlen deliveredFG causalFG
   have e : (plainOfF tFG.cF, plainOfF tFG.sF) = (([] : Bytes), k16) := by decide
   rw [e] at h
   exact h
@@ -1132,10 +1146,13 @@ theorem conformFB : FragConform tFB.cF ∧ FragConform tFB.sF := by
     · simp only [tFB, FinsRight]; decide +kernel
     · simp only [tFB, FragsNonEmpty]; decide +kernel
 
-/-- 3. the full-strength statement fails: every hypothesis (RFC-conformant fragmentation included) holds for `tFB`, but
-    the server's application data is lost — the tool exports nothing -/
-theorem tls13_fragmented_counterexample : ¬ tls13_connection_exact_statement := by
-  intro hst
+/-- the input on which the tool failed before the repair (`legacy_tls13_fragmented_counterexample`): every hypothesis of
+    `tls13_connection_exact_fragmented` holds for `tFB` — the second record starts inside the Certificate and carries the
+    whole Finished — and the server's application data is now exported -/
+theorem tls13_fragmented_instance_B :
+    ∃ frames, Pipeline.connOut hashes Cipher.Toy.prims infoFB connFB kl13
+        = some (frames.map (Pipeline.addressed connFB.opts connFB)) ∧
+      Spec.reassemble frames = some ([], k16) ∧ TimesFromCarriers infoFB connFB frames := by
   have hres : CipherSuite.resolve (Bytes.beNat tFB.sh.cipherSuite) = some ps13 := by decide +kernel
   have hargs : Pipeline.suiteArgs ps13 = some a13 := some_getD _ _ (by decide +kernel)
   have hfound : Keylog.findSessionSecrets kl13 (Pipeline.natsOfBytes tFB.ch.random)
@@ -1150,30 +1167,33 @@ theorem tls13_fragmented_counterexample : ¬ tls13_connection_exact_statement :=
   have hwr : ∀ d, ∀ r ∈ tFB.records Cipher.Toy.prims Cipher.Toy.laws cls13 x13 d, WholeRecord r := by
     intro d; cases d <;> decide +kernel
   have hlen : costF tFB.cF + costF tFB.sF ≤ seqLimit := by decide +kernel
-  have h := hst hashes Cipher.Toy.prims Cipher.Toy.laws kl13 infoFB connFB rfl tFB
+  have h := tls13_connection_exact_fragmented hashes Cipher.Toy.prims Cipher.Toy.laws kl13 infoFB connFB rfl tFB
     (by decide) (by decide) rfl rfl rfl rfl (by unfold Negotiated; decide)
     ps13 hres a13 hargs _ _ hfound secrets13 hsec k13 hgen
     (k13.clientHsKey.getD []) (k13.clientHsIv.getD []) (k13.clientAppKey.getD []) (k13.clientAppIv.getD [])
     (k13.serverHsKey.getD []) (k13.serverHsIv.getD []) (k13.serverAppKey.getD []) (k13.serverAppIv.getD [])
     (by decide +kernel) cls13 hcls (by decide +kernel) (by decide +kernel) (by decide +kernel) (by decide +kernel)
     conformFB.1 conformFB.2 hwr hlen deliveredFB causalFB
-  obtain ⟨frames, h1, h2, _⟩ := h
-  have hout : Pipeline.connOut hashes Cipher.Toy.prims infoFB connFB kl13 = some [] := by decide +kernel
-  rw [hout] at h1
-  have hf : frames = [] := by
-    cases frames with
-    | nil => rfl
-    | cons f fs => simp at h1
-  rw [hf] at h2
-  have : plainOfF tFB.sF = [] := by
-    have := congrArg (fun o => o.map Prod.snd) h2
-    simpa [Spec.reassemble] using this.symm
-  exact absurd this (by decide)
+  have e : (plainOfF tFB.sF) = k16 := by decide
+  have e2 : plainOfF tFB.cF = [] := by decide
+  rw [e, e2] at h
+  exact h
 
--- the lockstep hypothesis fails for the second record of `tFB` and for nothing else
-example : ¬ Lock (FEv.frag (flightBytes.drop 12) 1 ⟨[], [], [], 0⟩) ∧ Lock (FEv.frag (flightBytes.take 12) 0 ⟨[], [], [], 0⟩) := by
+/-- a decryptor that only counts its `update_keys` calls -/
+def counting : Session.Ops Nat := ⟨fun d _ _ => (d, none), fun d _ => (d + 1, true), fun _ _ _ _ _ _ => .noSuite⟩
+
+/-- BEFORE the repair (`Session.Legacy.hs13Loop`: the walk restarts at offset 0 of every record's plaintext): over the
+    two records of `tFB`'s server flight `update_keys` is never called although a Finished ends in the second one —
+    while the repaired loop calls it exactly once and ends with an empty buffer. Replayed on the real tool: the server's
+    application data was lost (0 of 21 bytes exported). -/
+theorem legacy_tls13_fragmented_counterexample :
+    finCount flightMsgs = 1 ∧
+    (Session.Legacy.hs13Loop counting (flightBytes.drop 12) true (flightBytes.drop 12).length 0
+      (Session.Legacy.hs13Loop counting (flightBytes.take 12) true 12 0 0).1).1 = 0 ∧
+    (let r1 := Session.hs13Loop counting true 12 (flightBytes.take 12) 0
+     Session.hs13Loop counting true (r1.2.1 ++ flightBytes.drop 12).length (r1.2.1 ++ flightBytes.drop 12) r1.1)
+      = (1, [], true) := by
   decide +kernel
-
 
 end Ex2
 
